@@ -2016,6 +2016,37 @@ func init() {
 			}
 		}
 	})
+	register("XCREATE", func(p *engine.Prog, r *engine.Report) {
+		vt, err := p.Func("blockchain/validation", "ValidateTx")
+		if err != nil {
+			r.Note("XCREATE", "entry", "", err.Error())
+			return
+		}
+		entries := []*ssa.Function{vt}
+		for _, f := range funcsOfPkg(p, "blockchain/validation") {
+			if strings.HasPrefix(f.Name(), "validate") {
+				entries = append(entries, f)
+			}
+		}
+		reach := p.Reach(entries, engine.ReachOpts{RepoOnly: true, NoFuncValueCHA: true})
+		for _, f := range engine.SortedFuncs(reach) {
+			if f.Blocks == nil {
+				continue
+			}
+			for _, c := range engine.Calls(f) {
+				if engine.CallNameIs(c, "GetOrNewIdentityObject", "GetOrNewAccountObject", "createIdentity", "createAccount") {
+					callers := []string{}
+					for _, e := range p.Callers(f) {
+						if reach[e.Caller.Func] && strings.Contains(engine.FuncName(e.Caller.Func), "validation") {
+							callers = append(callers, e.Caller.Func.Name())
+						}
+					}
+					sort.Strings(callers)
+					r.Note("XCREATE", uniq(r, engine.RelName(f)+"|creating accessor"), p.InstrPos(c), strings.Join(callers, ","))
+				}
+			}
+		}
+	})
 	register("XMK", func(p *engine.Prog, r *engine.Report) {
 		for _, f := range p.AllFuncs() {
 			if f.Blocks == nil || !engine.IsRepoPkg(engine.FuncPkg(f)) || isTestish(p.Pos(f.Pos())) {
@@ -2535,7 +2566,18 @@ func queueRemovalGuardedRule(p *engine.Prog, r *engine.Report, rule string) {
 		return true, isEq, "element.Hash() == tx.Hash()"
 	})
 	n := 0
+	var removals []ssa.Instruction
 	for _, st := range storesToField([]*ssa.Function{f}, "sortedTxs", "txs") {
+		removals = append(removals, st)
+	}
+	// the cut extracted into a helper method of the queue
+	for _, c := range engine.Calls(f) {
+		if h := c.Common().StaticCallee(); h != nil && h.Blocks != nil && h.Pkg == f.Pkg && h.Signature.Recv() != nil &&
+			len(storesToField([]*ssa.Function{h}, "sortedTxs", "txs")) > 0 {
+			removals = append(removals, c)
+		}
+	}
+	for _, st := range removals {
 		n++
 		ok := len(guards) > 0 && engine.OnlyThroughPass(f, st.Block(), guards)
 		r.Check(ok, rule, uniq(r, "sortedTxs.Remove|only the very transaction is removed"), p.InstrPos(st), "behind the hash equality", "the queue is shrunk without comparing the hash of the element found with the hash of the transaction to remove: the search stops at the first nonce not below, so removing a transaction that is not in this queue (a stale competitor with the same nonce, a pending one) evicts an unrelated executable transaction, which stays known to the pool but is never proposed and blocks every higher nonce of its sender")
@@ -2614,5 +2656,192 @@ func init() {
 	extend("C05", func(p *engine.Prog, r *engine.Report) {
 		r.Explanation += " (R8) every cache EnvImp.Commit writes back is re-created by Reset on every path (shared with C04-R6/C15-R2): a balance buffer that survives a transaction is written again by the next successful contract transaction of the block and lowers balances of addresses unrelated to its signer."
 		envCacheResetRule(p, r, "C05-R8", "vm/env", "EnvImp")
+	})
+}
+
+func init() {
+	extend("C08", func(p *engine.Prog, r *engine.Report) {
+		r.Explanation += " (R9) switching to a fork resets both trees with the overwriting loader (imports C09-R4: the abandoned versions above the common ancestor are deleted, otherwise the first fork block that changes identity state at an already saved height cannot be committed and the node is left on an uncertified prefix); (R10) the quorum is never truncated (imports C07-R9)."
+		importRules(p, r, "C09", map[string]string{"C09-R4": "C08-R9"})
+		importRules(p, r, "C07", map[string]string{"C07-R9": "C08-R10"})
+	})
+}
+
+// ---------------------------------------------------------------------------------------------
+// C02-R10: a transaction the block builder tries and leaves out leaves no trace in the check state.
+// filterTxs validates every candidate on the state it builds the block on and cannot undo anything, so
+// the validators must read without writing. Four StateDB getters (enumerated from the call graph: the
+// functions of core/state reachable from the validators that call GetOrNewIdentityObject) CREATE an
+// empty identity record for an address that has none and mark it dirty — the record is written at
+// Precommit and changes the root. A validator may call such a getter only for an address whose
+// identity it has already looked up without creating (GetIdentity / GetIdentityState …) with a refusal
+// depending on that lookup on the way; anything else is a state write on a path that can end in
+// "rejected" or "left out", i.e. a proposal nobody — including the proposer — can validate.
+type creatingSite struct {
+	fn   *ssa.Function
+	call ssa.CallInstruction
+	addr ssa.Value
+	via  string
+}
+
+func creatingGetters(p *engine.Prog) map[*ssa.Function]bool {
+	out := map[*ssa.Function]bool{}
+	for _, f := range funcsOfPkg(p, "core/state") {
+		if f.Blocks == nil || f.Signature.Recv() == nil || !strings.Contains(f.Signature.Recv().Type().String(), "StateDB") {
+			continue
+		}
+		if strings.HasPrefix(f.Name(), "GetOrNew") || strings.HasPrefix(f.Name(), "create") {
+			continue
+		}
+		creates, writes := false, false
+		for _, c := range engine.Calls(f) {
+			if engine.CallNameIs(c, "GetOrNewIdentityObject", "GetOrNewAccountObject") {
+				creates = true
+				// a setter on the object right away: a mutator, not a getter
+				if v, ok := c.(*ssa.Call); ok {
+					for _, ref := range *v.Referrers() {
+						if cc, ok := ref.(ssa.CallInstruction); ok && cc != c {
+							if o := engine.CalleeObj(cc.Common()); o != nil {
+								n := o.Name()
+								for _, pre := range []string{"Set", "Add", "Sub", "Remove", "Clear", "Reset", "Inc", "Dec", "Toggle", "set", "add", "sub", "remove", "touch", "Delete", "Update"} {
+									if strings.HasPrefix(n, pre) {
+										writes = true
+									}
+								}
+							}
+						}
+						if _, ok := ref.(*ssa.FieldAddr); ok {
+							// direct field access: look for a store
+							writes = writes || false
+						}
+					}
+				}
+			}
+		}
+		if creates && !writes {
+			out[f] = true
+		}
+	}
+	return out
+}
+
+func validatorsReadWithoutCreatingRule(p *engine.Prog, r *engine.Report, rule string) {
+	getters := creatingGetters(p)
+	pkgFns := funcsOfPkg(p, "blockchain/validation")
+	var sites []creatingSite
+	for _, f := range pkgFns {
+		if f.Blocks == nil || isTestish(p.Pos(f.Pos())) {
+			continue
+		}
+		for _, c := range engine.Calls(f) {
+			g := c.Common().StaticCallee()
+			if g == nil || !getters[g] || len(c.Common().Args) < 2 {
+				continue
+			}
+			sites = append(sites, creatingSite{f, c, c.Common().Args[1], engine.RelName(g)})
+		}
+	}
+	// a helper that reads for one of its own address parameters: the obligation moves to its callers
+	for round := 0; round < 3; round++ {
+		var next []creatingSite
+		for _, s := range sites {
+			par, isPar := engine.Origin(s.addr).(*ssa.Parameter)
+			if !isPar || !strings.HasSuffix(par.Type().String(), "common.Address") {
+				next = append(next, s)
+				continue
+			}
+			idx := -1
+			for i, q := range s.fn.Params {
+				if q == par {
+					idx = i
+				}
+			}
+			moved := false
+			for _, f := range pkgFns {
+				if f.Blocks == nil {
+					continue
+				}
+				for _, c := range engine.Calls(f) {
+					if c.Common().StaticCallee() == s.fn && idx >= 0 && idx < len(c.Common().Args) {
+						next = append(next, creatingSite{f, c, c.Common().Args[idx], s.via + " via " + s.fn.Name()})
+						moved = true
+					}
+				}
+			}
+			if !moved {
+				next = append(next, s)
+			}
+		}
+		sites = next
+	}
+	sameAddr := func(a, b ssa.Value) bool {
+		oa, ob := engine.Origin(a), engine.Origin(b)
+		if oa == ob {
+			return true
+		}
+		return renderVal(oa, 0) == renderVal(ob, 0)
+	}
+	n := 0
+	for _, s := range sites {
+		n++
+		r.Fn(engine.FuncName(s.fn))
+		// a refusal that depends on a non-creating lookup of the same address, on the way to the site
+		guards := guardsWhere(s.fn, func(cond ssa.Value) (bool, bool, string) {
+			found := false
+			for v := range engine.BackSlice(cond, engine.SliceOpts{ThroughLoads: true, ThroughCalls: true, ThroughFields: true, MaxNodes: 80}) {
+				c, ok := v.(*ssa.Call)
+				if !ok || len(c.Call.Args) < 2 {
+					continue
+				}
+				if engine.CallNameIs(c, "GetIdentity", "GetIdentityState", "IdentityExists", "IsApproved", "IsOnline", "IsValidated") && sameAddr(c.Call.Args[1], s.addr) {
+					if g := c.Call.StaticCallee(); g == nil || !getters[g] {
+						found = true
+					}
+				}
+			}
+			return found, true, "existence-dependent refusal"
+		})
+		ok := false
+		for _, g := range guards {
+			// the guard must refuse on one edge and lead to the site on the other
+			for i := 0; i < 2; i++ {
+				succ := g.If.Block().Succs[i]
+				other := g.If.Block().Succs[1-i]
+				refuses := false
+				for _, ins := range other.Instrs {
+					if ret, isR := ins.(*ssa.Return); isR && retErrKind(ret) == "nonnil" {
+						refuses = true
+					}
+				}
+				if refuses && (succ == s.call.Block() || succ.Dominates(s.call.Block())) {
+					ok = true
+				}
+			}
+		}
+		who := "address"
+		switch x := engine.Origin(s.addr).(type) {
+		case *ssa.Extract:
+			if c, ok := x.Tuple.(*ssa.Call); ok && engine.CallNameIs(c, "Sender") {
+				who = "sender"
+			}
+		case *ssa.UnOp:
+			if u, ok := engine.Unwrap(x.X).(*ssa.UnOp); ok {
+				if _, fld, ok := engine.FieldOf(u.X); ok {
+					who = "tx." + fld
+				}
+			} else if _, fld, ok := engine.FieldOf(x.X); ok {
+				who = "tx." + fld
+			}
+		}
+		key := uniq(r, s.fn.Name()+"|"+s.via+"("+who+") creates no record")
+		r.Check(ok, rule, key, p.InstrPos(s.call), "the address was looked up without creating and a refusal depends on it", s.fn.Name()+" reads through "+s.via+", which creates an empty identity record for an address that has none and marks it dirty, and no refusal that depends on a non-creating lookup of that address lies on the way: filterTxs runs the validators on the state it builds the block on and cannot undo — when this transaction is then rejected by a later check (or left out), the record stays in the proposer's state only, and the proposal fails \"invalid block roots\" on every node, the proposer's own AddBlock included")
+	}
+	r.Check(n >= 4, rule, "scan|creating reads in the validators (control)", "", fmt.Sprintf("%d sites, %d creating getters", n, len(getters)), "fewer than four creating reads found in the validators: anchor moved")
+}
+
+func init() {
+	extend("C02", func(p *engine.Prog, r *engine.Report) {
+		r.Explanation += " (R10) validators read the state without creating records: a getter that goes through GetOrNewIdentityObject is called only for an address whose identity was already looked up non-creatingly with a refusal depending on it (the block builder validates on the state it builds on and cannot undo)."
+		validatorsReadWithoutCreatingRule(p, r, "C02-R10")
 	})
 }
